@@ -20,7 +20,8 @@ VARIANTS = ["plain"]
 IMPORTS = ["(scheme base)", "(scheme write)", "(chibi regexp)"]
 RULE = ("case = (SRE, subject): SREs of depth <= 5 (plus all SREs with <= 3 nodes over the core alphabet) x all strings of "
         "length <= 5 (quick) / <= 7 (thorough) over a 3-letter alphabet chosen per SRE (abc, aAb for case folding, ab+newline "
-        "for line anchors); checked: regexp-matches? <=> whole-string membership, regexp-search <=> some substring matches, the "
+        "for line anchors and newline literals; every (x anchor y) with x, y over newline / any / nonl / letter / set with newline / (* any) "
+        "and anchor over bol eol bos eos is included); checked: regexp-matches? <=> whole-string membership, regexp-search <=> some substring matches, the "
         "reported match and submatch spans delimit text matched by the corresponding subexpression, regexp-fold spans likewise; "
         "non-trivial iff the SRE has a repetition of a subexpression containing or/another repetition, or a submatch inside a "
         "repetition, and the subject has length >= 2; distinct by (SRE, subject)")
@@ -406,8 +407,10 @@ def check_sre(node, maxlen, res, rng, strip=True):
         node = strip_known(node, res)
     feats = features(node)
     alpha = alphabet_for(feats)
-    subs = subjects(alpha, maxlen)
     sre = render(node)
+    if "nocase" not in feats and ("newline" in sre or "\\n" in sre):
+        alpha = "ab\n"
+    subs = subjects(alpha, maxlen)
     subm = submatches(node)
     prog = "(run-sre '%s %d (list %s))\n" % (sre, len(subm), " ".join(E.scm_str(s) for s in subs))
     r = driver().run(prog, cpu=20)
@@ -496,6 +499,16 @@ def run_shard(spec):
                 algebra.append(("nocase", ("or", [x, y])))
                 algebra.append(("nocase", ("rep", 1, None, ("or", [x, y]), True)))
                 algebra.append(("seq", [("bos",), ("nocase", ("or", [x, y])), ("lit", "b")]))
+    # anchors at every position relative to text that does / does not end in a newline: (x anchor), (anchor x), (x anchor y)
+    # with x, y over newline, any, nonl, a letter, a set holding the newline and (* any); subjects over {a, b, newline}
+    around = [("lit", "\n"), ("any",), ("nonl",), ("lit", "a"), ("set", "a\n", False), ("rep", 0, None, ("any",), True)]
+    for anc in (("bol",), ("eol",), ("bos",), ("eos",)):
+        for x in around:
+            algebra.append(("seq", [x, anc]))
+            algebra.append(("seq", [anc, x]))
+            algebra.append(("rep", 1, None, ("seq", [x, anc]), True))
+            for y in around:
+                algebra.append(("seq", [x, anc, y]))
     fam += [n for i, n in enumerate(algebra) if i % spec["nshards"] == spec["shard"]]
     for n in fam:
         f = check_sre(n, maxlen, res, rng)
